@@ -1,5 +1,52 @@
-import PatchModel.Spec.Script
+/-
+  C10 (driver model) — I/O failures are never reported as success.
+  Proofs: Lemmas/Fault (`Good k m`: lock-step simulation of the fault-free run and the run with the fault at `k`).
+-/
+import PatchModel.Model.Driver
+import PatchModel.Lemmas.Fault
 namespace PatchModel.C10
-/-- placeholder until the driver model's theorems are in (see DESIGN.md section 5/C10) -/
-theorem placeholder : True := trivial
+open PatchModel PatchModel.Fault
+
+/-- **single fault**: if the k-th file system operation of a run fails, the run ends with an exception (`main` prints a diagnostic and
+    exits with status 2) — nothing in the driver catches, ignores or retries a failed operation -/
+theorem fault_is_fatal (o : Options) (s0 : DState) (k : Nat) (hk : s0.faultAt = some k) (hc : s0.opCount = 0)
+    (hh : o.showHelp = false ∧ o.showVersion = false)
+    (hreached : (runPatch o s0).2.opCount > k) :
+    (runPatch o s0).1 = 2 := by
+  have _ := hh   -- not needed: with help/version the counter stays 0, which `hreached` excludes
+  have e : wf k { s0 with faultAt := none } = s0 := by cases s0; cases hk; rfl
+  have h := runPatch_out o { s0 with faultAt := none } k rfl (by show s0.opCount ≤ k; omega)
+  rw [e] at h
+  rcases h with ⟨_, h2, h3⟩ | ⟨_, _, h3, _⟩
+  · rw [h2, wf_opCount] at hreached; omega
+  · exact h3
+
+/-- a fault scheduled beyond the last operation of the run is harmless: the run is identical to the fault-free run -/
+theorem fault_not_reached (o : Options) (s0 : DState) (k : Nat) (hc : s0.opCount = 0)
+    (hnot : (runPatch o { s0 with faultAt := none }).2.opCount ≤ k) :
+    (runPatch o { s0 with faultAt := some k }).1 = (runPatch o { s0 with faultAt := none }).1 ∧
+    (runPatch o { s0 with faultAt := some k }).2.fs = (runPatch o { s0 with faultAt := none }).2.fs ∧
+    (runPatch o { s0 with faultAt := some k }).2.out = (runPatch o { s0 with faultAt := none }).2.out := by
+  have h := runPatch_out o { s0 with faultAt := none } k rfl (by show s0.opCount ≤ k; omega)
+  have e : wf k { s0 with faultAt := none } = { s0 with faultAt := some k } := rfl
+  rw [e] at h
+  rcases h with ⟨h1, h2, _⟩ | ⟨h1, _⟩
+  · exact ⟨h1, by rw [h2, wf_fs], by rw [h2, wf_out]⟩
+  · omega
+
+/-- up to the fault the two runs are the same run: the operations performed before it are a prefix of the fault-free trace -/
+theorem fault_prefix (o : Options) (s0 : DState) (k : Nat) (hc : s0.opCount = 0) (ht : s0.trace = []) :
+    ∃ rest, (runPatch o { s0 with faultAt := none }).2.trace = (runPatch o { s0 with faultAt := some k }).2.trace ++ rest := by
+  have _ := ht   -- not needed: both runs start from the same trace
+  have h := runPatch_out o { s0 with faultAt := none } k rfl (by show s0.opCount ≤ k; omega)
+  have e : wf k { s0 with faultAt := none } = { s0 with faultAt := some k } := rfl
+  rw [e] at h
+  rcases h with ⟨_, h2, _⟩ | ⟨_, _, _, h4⟩
+  · exact ⟨[], by rw [h2, wf_trace, List.append_nil]⟩
+  · exact h4
+
 end PatchModel.C10
+
+#print axioms PatchModel.C10.fault_is_fatal
+#print axioms PatchModel.C10.fault_not_reached
+#print axioms PatchModel.C10.fault_prefix
